@@ -374,8 +374,17 @@ func c07check(c *h.Ctx, box [4]float64, line []P, tol float64, full bool) (nontr
 			opts = append(opts, clip.OpenBound(true))
 		}
 		other := orb.LineString{{box[0] - 3, box[1] - 3}, {box[0] - 2, box[1] - 3}}
-		mls := clip.MultiLineString(b, orb.MultiLineString{cloneLS(in), other, cloneLS(in)}, opts...)
+		// an outside member first, then the line, another outside member, the line again
+		mlsIn := orb.MultiLineString{cloneLS(other), cloneLS(in), cloneLS(other), cloneLS(in)}
+		mlsSnap := orb.MultiLineString{cloneLS(other), cloneLS(in), cloneLS(other), cloneLS(in)}
+		mls := clip.MultiLineString(b, mlsIn, opts...)
 		c.Eval()
+		for i := range mlsSnap {
+			if i >= len(mlsIn) || !bitsEqualPts(mlsIn[i], mlsSnap[i]) {
+				c.Fail("", "clip.MultiLineString modified its input (members moved or overwritten)", map[string]interface{}{"case": cs(), "input_before": sv(mlsSnap), "input_after": sv(mlsIn)})
+				break
+			}
+		}
 		if len(mls) != 2*len(got) {
 			c.Fail("", "clip.MultiLineString is not the concatenation of the members' clips", map[string]interface{}{"case": cs(), "got": sv(mls), "single": sv(got)})
 		} else {
